@@ -16,6 +16,17 @@ REPO = os.environ.get("VERIF_REPO", "/repo")
 COQ = os.path.join(VERIF, "coq")
 WORK = os.path.join(VERIF, ".work")
 EVID = os.path.join(VERIF, "evidence")
+if os.path.realpath(REPO) != "/repo":
+    # Scratch run against another source tree (mutation testing): work on a private
+    # copy of the Coq tree and a private build directory so that the shared tree,
+    # its generated files and the registered evidence are left alone.
+    _tag = hashlib.sha256(os.path.realpath(REPO).encode()).hexdigest()[:10]
+    WORK = os.path.join(VERIF, ".work", "alt", _tag)
+    EVID = os.path.join(WORK, "evidence")
+    os.makedirs(WORK, exist_ok=True)
+    subprocess.run(["rsync", "-a", "--delete", "--exclude", "Makefile.coq*", "--exclude", ".Makefile.coq.d",
+                    "--exclude", "_CoqProject", os.path.join(VERIF, "coq") + "/", os.path.join(WORK, "coq") + "/"], check=True)
+    COQ = os.path.join(WORK, "coq")
 GUARD = "KJN_LBZIP2_VERIF"
 NCPU = os.cpu_count() or 4
 
